@@ -365,7 +365,19 @@ Definition run_special (env : uenv) (impl name : string) (la : largs) (extras : 
     | _ => Err EOther
     end
   else if String.eqb impl "_unwrap" then
-    do u <- qty_units (g "p"); do_ convert_q env u (unit_of_str "rad"); Ok (PAll (Some u))
+    (* _unwrap(p, discont=None, axis=-1): NumPy's keyword [period] is not accepted (TypeError);
+       [discont] is handed to NumPy as it is, next to the magnitude of p in radians *)
+    match g "period" with
+    | Some _ => Err EType
+    | None =>
+        do u <- qty_units (g "p"); do_ convert_q env u (unit_of_str "rad");
+        (* a Quantity discont meets bare radians inside NumPy's comparisons and subtractions *)
+        do_ match g "discont" with
+            | Some (A1 (SQ e)) => if dimensionless env e then Ok tt else Err EDim
+            | _ => Ok tt
+            end;
+        Ok (PAll (Some u))
+    end
   else if String.eqb impl "_copyto" then
     match g "dst", g "src" with
     | Some (A1 (SQ d)), Some (A1 (SQ s)) => do_ convert_q env s d; Ok (PAll None)
